@@ -269,8 +269,12 @@ func genC17(r *rng, n int, tier string, emit func(string, ...string)) {
 				}
 			}
 		}
-		// (b) multiplicities 0..3
-		for k := 0; k <= 3; k++ {
+		// (b) multiplicities 0..3, and around the sizes at which a narrow counter would wrap (for a few fields)
+		mults := []int{0, 1, 2, 3}
+		if f.name == "WARC-Date" || f.name == "WARC-Filename" || f.name == "WARC-Concurrent-To" || f.name == "Content-Type" {
+			mults = append(mults, 255, 256, 257)
+		}
+		for _, k := range mults {
 			h := [][2]string{}
 			for _, nv := range baseHeader("revisit") {
 				if !strings.EqualFold(nv[0], f.name) {
